@@ -16,6 +16,16 @@ META = {
         text="The frozen format is the Lean definition specHash; the correspondence runs the real HashBucket, an independent Go reference, the Lean spec and the Lean implementation model on the same filesets and requires identical wareIDs (SHA-384 + base58 also implemented in Lean for this).",
         note="Trusted: Lean kernel; archive codecs and compression are outside the model (differential only).",
     ),
+    "C02": dict(
+        technique="Lean 4 theorems on header conversion / pack model + end-to-end differential round trip on the real filesystem",
+        text="The pack model predicts every wareID of the round trip (pack, scan, unpack, re-pack); the unpacked tree is compared attribute by attribute with the logical fileset by an independent raw-syscall walker, for tar and zip, file:// and ca+file://, all placement modes. Header-conversion theorems are proved in Lean; the filesystem-level round-trip theorem is partial (see DESIGN.md).",
+        note="Trusted: Lean kernel; archive codecs; the kernel's creat/mkdir/chown semantics (exercised, not proved). Known finding: setgid-inherit.",
+    ),
+    "C20": dict(
+        technique="Lean 4 theorem over the regenerated call table of the pack path (read-only operations only) + before/after snapshots on the real filesystem",
+        text="factgen regenerates the set of fs.FS methods and os/syscall functions reachable from the pack, scan and mirror paths; a Lean theorem states that every one of them is a read-only operation of the filesystem model. The rt stream snapshots the source tree (content hash, mode, uid, gid, mtime ns) before and after every pack and the source warehouses around scan/unpack/mirror.",
+        note="Trusted: Lean kernel; factgen's call-graph extraction (static, intra-repo); the kernel.",
+    ),
     "C12": dict(
         technique="Lean 4 theorems (filter = documented per-attribute rule; pack with filter = lossless pack of filtered fileset) + differential correspondence",
         text="C12_pack_entry / C12_reject_iff / C12_only_named / C12_flatten / C12_pack / C12_cli_stack are proved for every filter setting and every entry (no enumeration). The Lean filter functions are compared with filters.Apply*Filter on all complete settings x an entry zoo, and end to end through unpackTar.",
